@@ -53,7 +53,11 @@ func GenLayoutCase(seed int64, idx int) GCase {
 		feats["imports"] = true
 	}
 	decl := func(i int) string {
-		switch r.Intn(10) {
+		switch r.Intn(11) {
+		case 10:
+			// ordinary comments that merely mention a directive
+			feats["comment-mentions-directive"] = true
+			return fmt.Sprintf("// helper%d is kept in sync by hand; do not add a //go:generate line for it.\nfunc helper%d() {}\n\n/* Legacy note %d: this file used to start with \"// +build convergen\" only. */\nvar Legacy%d = 1\n\n", i, i, i, i)
 		case 9:
 			// a directive between the ordinary lines of a doc comment
 			feats["directive-inside-doc"] = true
